@@ -505,6 +505,11 @@ class IndentationFitter(object):
             self.fit()
             # Do the following three-times.
             for _i in range(3):
+                if "params_fitted" not in self.fp:
+                    # The first pass could not be performed (too few
+                    # points): there is no contact point to refine the
+                    # range with and `success` remains `False`.
+                    break
                 # get the fitted contact point
                 cp = self.fp["params_fitted"]["contact_point"].value
                 self.range_x = list(np.array(range_x)+cp)
